@@ -41,3 +41,28 @@ reg("C02", "explore", "exploration",
     "plus all tuples of up to 3 back-to-back frame classes each followed by a sentinel frame; bytes consumed per frame must be exact.",
     "Trusted: reference encoder/decoder; ScriptSock cursor accounting.",
     "DESIGN.md section 6 C02")
+
+reg("C04", "explore", "model_checking",
+    "explicit-state search over all legal server frame histories (real receive calls step by step) against a list-based reference reassembler",
+    "All frame sequences the RFC sequencing automaton allows, up to a depth, over fragments with empty / partial-code-point payloads and control frames, "
+    "for every combination of fire_cont_frame, skip_utf8_validation, control_frame and the three receive calls; every delivery is compared with the reference.",
+    "Trusted: reference automaton/reassembler; incremental feeding relies on C03 (a timeout at the end of the available bytes leaves the parser state intact).",
+    "DESIGN.md section 6 C04")
+reg("C05", "explore", "model_checking",
+    "exhaustive enumeration of first bytes / close codes plus explicit-state search over all (legal and illegal) frame sequences against the reference validator",
+    "All 256 first bytes x mask x length classes from idle and in-message states through three receive calls; all 65536 close codes; close bodies and "
+    "reasons of every UTF-8 validity class; all sequences up to a depth over 8 frame kinds: rejection must happen at exactly the first forbidden frame.",
+    "Trusted: reference validator (three-valued: codes 1012-1014 don't-care).",
+    "DESIGN.md section 6 C05")
+reg("C06", "explore", "model_checking",
+    "reachability over the product of the implementation's own UTF-8 transition function and a reference DFA (all 256 bytes from every reachable pair), plus bounded black-box and end-to-end enumeration",
+    "Both validators are deterministic automata; every reachable state pair is visited with all 256 successors and acceptance is compared in each, which decides "
+    "agreement on all byte strings. Complemented by all strings up to length 4/5 over 24 boundary bytes and all fragmentations of 44 strings through recv/recv_data.",
+    "Trusted: the reference DFA (Unicode table 3-7) and CPython's strict decoder, cross-checked against each other; pure-Python validator path (no wsaccel).",
+    "DESIGN.md section 6 C06")
+reg("C07", "explore", "model_checking",
+    "explicit-state search over legal frame histories with an ordered transport log (READ/WRITE events), plus exhaustive burst sequences and all ping lengths",
+    "For each ping the event after the READ completing it must be the WRITE of one well-formed pong with identical payload; nothing else is ever written; "
+    "all ping lengths 0..125 at three positions, all legal sequences up to a depth delivered incrementally and as single bursts, 5 API variants.",
+    "Trusted: reference decoder; the transport accepts writes whole (short writes are C12).",
+    "DESIGN.md section 6 C07")
